@@ -200,7 +200,7 @@ def observe(pid, allc):
 
 
 def judge(pid, recs):
-    verdicts, st, tr, wall = tlc.judge(pid, "C19", recs, JUDGE_CFG, shards=16 if len(recs) > 3000 else None, timeout=3000)
+    verdicts, st, tr, wall = tlc.judge(pid, "C19", recs, JUDGE_CFG, timeout=3000)
     got = {v["id"]: v for v in verdicts}
     if len(got) != len(recs):
         raise Machinery("judge returned %d verdicts for %d records" % (len(got), len(recs)))
